@@ -114,7 +114,9 @@ func (p *c12CallProg) inClass() bool {
 			}
 			continue
 		}
-		if p.cons == 0 && cls < 1 || p.cons != 0 && cls != 2 {
+		// the unsized helper returns the folded constant's own type, so even the as-is
+		// consumer needs the exact width (fold_exact_class)
+		if cls != 2 {
 			return false
 		}
 		if p.cons == 3 {
